@@ -200,7 +200,7 @@ pub fn key_bytes(k: &Key) -> Vec<u8> {
     }
 }
 
-fn strip_ansi(b: &[u8]) -> Vec<u8> {
+pub fn strip_ansi(b: &[u8]) -> Vec<u8> {
     let mut out = Vec::with_capacity(b.len());
     let mut i = 0;
     while i < b.len() {
